@@ -25,6 +25,21 @@ CHECKS["C03"] = ("exploration",
     "Generated histories (<=40 operations: set/change/delete ranges, add/modify/invert/deregister polygon filters, invalid-event removal, enable, event limit, manual exclusions, reset, apply with/without force) on datasets with NaN/inf and bounds tying with data; after every apply the box/polygon/invalid/all arrays are compared with a from-scratch evaluation of the current configuration and with a freshly configured dataset (history independence, reproducible limit). Exploration, not proof.",
     "Events exactly on a polygon boundary or with non-finite polygon coordinates are excluded from the polygon comparison (counted); dyadic coordinates make the float test exact; lone min/max keys (documented ValueError) are not generated.",
     "DESIGN.md §5 C03")
+CHECKS["C05"] = ("exploration",
+    "Hypothesis-generated LUTs/set-ups/query points + differential oracle (own LUT parser, own Delaunay + barycentric interpolation, transcribed scaling/pixelation/viscosity laws) + metamorphic relations",
+    "Generated-input search over built-in and generated user LUTs (path / identifier / array+metadata), channel widths, flow rates, pixel sizes incl. 0, media x viscosity models x temperatures (scalar and per event) and numeric viscosities; query points are constructed in LUT coordinates (interior, triangle edges, nodes, hull +-1e-3..1e-12, outside, NaN/inf). Each event is compared with an independent interpolation + scaling implementation (rtol 1e-7 + conditioning term), NaN <=> outside the hull (own hull test, 1e-9 band excluded and counted), and metamorphic laws (batch independence, scalar vs array temperature vs numeric viscosity, linearity, joint rescaling, no state leak, inputs/LUTs unmodified, ancillary-feature scenarios A/B/C). Exploration, not proof.",
+    "Qhull is shared between oracle and code; constants of the pixelation/viscosity formulas are transcribed from the docs of this tree; extrapolate=True not claimed; quads with ambiguous Delaunay diagonal skipped and counted.",
+    "DESIGN.md §5 C05, notes/C05.md")
+CHECKS["C17"] = ("exploration",
+    "history-driven generation (Hypothesis) over memoised functions with adversarially similar arguments + differential oracle (undecorated function / direct digest / get_contour / first read)",
+    "Generated call histories on kde_histogram/kde_gauss/kde_multivariate/downsample_grid with byte-identical siblings (other dtype, re-split bytes, strided views, 1-D vs 2-D, positional vs keyword), bursts beyond the cache capacity and in-place modification of results; util.hashfile with rewrites at +1 ns..+1 s mtime, same-size rewrites, symlinks, LRU overflow; LazyContourList with small capacities; dataset reads (HDF5, child, grandchild, basin, mapped basin) followed by in-place modification and re-read. Every result must equal a fresh computation exactly. Exploration, not proof.",
+    "The undecorated functions (Cache.func) and hashlib are the reference; eviction order itself is not observable through values (only bound, consistency, immediate-repeat hit); compiled downsampling body is black-box.",
+    "DESIGN.md §5 C17, notes/C17.md")
+CHECKS["C18"] = ("exploration",
+    "Hypothesis-generated masks/polygons/images/spill matrices + exact-arithmetic reference (rational polygon moments, Pappus volume, integer brightness statistics) + invariants (refill, translation, swap, rotation, scaling, inverse)",
+    "Generated connected hole-free masks (blobs, thin, border/corner-touching), star-shaped and elliptic polygons at offsets up to 5000 px, pixelated discs, uint8 images/backgrounds with every offset container, non-negative invertible spill matrices: contour traces the boundary and refill(contour)==mask; moments/inertia ratios against exact rational moments + translation/swap/rotation laws; volume against an independent Pappus evaluation, s^3 scaling, orientation sign, analytic bounds; brightness = exact mean/SD/percentiles; crosstalk correction inverts the modelled spill-over; list/3-D/dataset routes equal the single-event functions. Exploration, not proof.",
+    "Float tolerances are condition based with >=100x margin over measured error (table in notes/C18.md); compiled marching squares is black-box; one-pixel masks are a documented rejection.",
+    "DESIGN.md §5 C18, notes/C18.md")
 NOT_APPLICABLE = {}
 
 def main():
